@@ -60,10 +60,12 @@ def _bits(u):
     return struct.unpack("<d", struct.pack("<Q", u))[0]
 
 
-# NaNs that are NOT tskit.UNKNOWN_TIME (0x7FF8000000000001): a mutation time holding one of them is a
-# non-finite time, not an unknown one
-NAN_NEG_UNKNOWN = _bits(0xFFF8000000000001)
-NAN_PAYLOAD2 = _bits(0x7FF8000000000002)
+# NaNs that are NOT tskit.UNKNOWN_TIME (one particular quiet-NaN bit pattern): a mutation time holding one of them is
+# a non-finite time, not an unknown one.  Derived from the constant so that they differ from it in ONE bit.
+_UNKNOWN_BITS = struct.unpack("<Q", struct.pack("<d", tskit.UNKNOWN_TIME))[0]
+NAN_NEG_UNKNOWN = _bits(_UNKNOWN_BITS ^ (1 << 63))   # sign bit flipped
+NAN_PAYLOAD2 = _bits(_UNKNOWN_BITS ^ 1)              # lowest payload bit flipped
+NAN_PAYLOAD_HI = _bits(_UNKNOWN_BITS ^ (1 << 50))    # a high payload bit flipped (still quiet)
 
 # 40 slots per block; the block pattern is rotated so that no worker shard (idx % nshards) sees one family only
 _PATTERN = (["mutate"] * 14 + ["sweep"] * 16 + ["index"] * 4 + ["reorder"] * 5 + ["large"] * 1)
@@ -73,7 +75,7 @@ assert sorted(_ORDER) == list(range(40)) and len(_PATTERN) == 40
 
 
 def cases(tier, seed):
-    n = 9000 if tier == "quick" else 600000
+    n = 12000 if tier == "quick" else 600000
     counters = {}
     for k in range(n):
         q, r = divmod(k, 40)
@@ -317,7 +319,7 @@ REFVALS = ["-2", "-1", "n", "n+1", "imax", "imin", "0", "n-1"]
 FLOATCOLS = [("edges", "left"), ("edges", "right"), ("sites", "position"), ("nodes", "time"), ("mutations", "time"),
              ("migrations", "left"), ("migrations", "right"), ("migrations", "time")]
 FLOATVALS = ["nan", "inf", "-inf", "-1", "-0.0", "0.0", "L", "L+1", "L-ulp", "L+ulp", "1e308", "-1e308", "denorm", "-denorm",
-             "cur+ulp", "cur-ulp", "nan-neg-unknown", "nan-payload2"]
+             "cur+ulp", "cur-ulp", "nan-neg-unknown", "nan-payload2", "nan-payload-hi"]
 
 
 def op_ref(rng, tc, col=None, val=None):
@@ -340,7 +342,8 @@ def floatval(name, L, cur):
         return math.nextafter(cur, -INF) if np.isfinite(cur) else 0.0
     return {"nan": NAN, "inf": INF, "-inf": -INF, "-1": -1.0, "-0.0": -0.0, "0.0": 0.0, "L": L, "L+1": L + 1,
             "L-ulp": math.nextafter(L, 0), "L+ulp": math.nextafter(L, INF), "1e308": 1e308, "-1e308": -1e308,
-            "denorm": 5e-324, "-denorm": -5e-324, "nan-neg-unknown": NAN_NEG_UNKNOWN, "nan-payload2": NAN_PAYLOAD2}[name]
+            "denorm": 5e-324, "-denorm": -5e-324, "nan-neg-unknown": NAN_NEG_UNKNOWN, "nan-payload2": NAN_PAYLOAD2,
+            "nan-payload-hi": NAN_PAYLOAD_HI}[name]
 
 
 def op_float(rng, tc, col=None, val=None):
@@ -485,20 +488,38 @@ def op_mut_parent(rng, tc, mode=None):
 
 
 def _site_rows(mu, s):
-    return [j for j in range(mu.num_rows) if mu.site[j] == s]
+    site = mu.site
+    return [j for j in range(len(site)) if site[j] == s]
 
 
-def _node_parent_at_site(tc, k):
-    mu = tc.mutations
-    s, u = int(mu.site[k]), int(mu.node[k])
-    if not (0 <= s < tc.sites.num_rows):
-        return None
-    pos = tc.sites.position[s]
-    e = tc.edges
-    par = [int(e.parent[j]) for j in range(e.num_rows) if int(e.child[j]) == u and e.left[j] <= pos < e.right[j]]
-    if not par or not (0 <= par[0] < tc.nodes.num_rows):
-        return None
-    return par[0]
+def _single_mutation_sites(mu):
+    site = mu.site
+    counts = {}
+    for x in site:
+        counts[int(x)] = counts.get(int(x), 0) + 1
+    return counts
+
+
+def _node_parents_at_sites(tc):
+    """For every mutation: the parent of its node in the tree at its site (None if it has none / ids are broken)."""
+    mu, e = tc.mutations, tc.edges
+    site, node, pos = mu.site, mu.node, tc.sites.position
+    left, right, par, child = e.left, e.right, e.parent, e.child
+    n = tc.nodes.num_rows
+    by_child = {}
+    for j in range(len(left)):
+        by_child.setdefault(int(child[j]), []).append(j)
+    out = []
+    for k in range(len(site)):
+        s, u = int(site[k]), int(node[k])
+        p = None
+        if 0 <= s < len(pos):
+            for j in by_child.get(u, ()):
+                if left[j] <= pos[s] < right[j] and 0 <= par[j] < n:
+                    p = int(par[j])
+                    break
+        out.append(p)
+    return out
 
 
 MUT_TIME_MODES = ["unknown", "node-time", "below-node", "far-above", "parent-mut+", "parent-mut=", "all-unknown", "all-node-time",
@@ -515,33 +536,36 @@ def op_mut_time(rng, tc, mode=None):
     if mode in ("parent-node-time", "just-below-parent-node"):
         # the boundary of "younger than the parent of the node in the tree at the site": equal is invalid,
         # the next double below is valid.  Only this bound may be wrong, so take a site with a single mutation.
-        cand = [k for k in range(mu.num_rows) if len(_site_rows(mu, mu.site[k])) == 1 and _node_parent_at_site(tc, k) is not None]
+        counts, pars, site = _single_mutation_sites(mu), _node_parents_at_sites(tc), mu.site
+        cand = [k for k in range(mu.num_rows) if counts[int(site[k])] == 1 and pars[k] is not None]
         if not cand:
             return None
         k = cand[pick(rng, len(cand))]
-        tp = tc.nodes.time[_node_parent_at_site(tc, k)]
+        tp = tc.nodes.time[pars[k]]
         setcol(tc, "mutations", "time", k, tp if mode == "parent-node-time" else math.nextafter(tp, -INF))
         return f"mut-time:{mode}"
     if mode in ("parent-mut+", "parent-mut="):
-        cand = [k for k in range(mu.num_rows) if 0 <= mu.parent[k] < mu.num_rows and not unk[mu.parent[k]]]
+        mpar, mtime = mu.parent, mu.time
+        cand = [k for k in range(mu.num_rows) if 0 <= mpar[k] < mu.num_rows and not unk[mpar[k]]]
         if not cand:
             return None
         k = cand[pick(rng, len(cand))]
-        pt = mu.time[mu.parent[k]]
+        pt = mtime[mpar[k]]
         setcol(tc, "mutations", "time", k, math.nextafter(pt, INF) if mode == "parent-mut+" else pt)
         return f"mut-time:{mode}"
     if mode in ("prev-same-site+", "prev-same-site="):
         # 'ordered by decreasing time, if known': equal to the previous row is in order, one ulp above is not
-        cand = [k for k in range(1, mu.num_rows) if mu.site[k] == mu.site[k - 1] and not unk[k - 1] and not unk[k]]
+        site, mtime = mu.site, mu.time
+        cand = [k for k in range(1, mu.num_rows) if site[k] == site[k - 1] and not unk[k - 1] and not unk[k]]
         if not cand:
             return None
         k = cand[pick(rng, len(cand))]
-        pt = mu.time[k - 1]
+        pt = mtime[k - 1]
         setcol(tc, "mutations", "time", k, math.nextafter(pt, INF) if mode == "prev-same-site+" else pt)
         return f"mut-time:{mode}"
     if mode in ("one-known-rest-unknown", "one-unknown-rest-known"):
         # the mix inside ONE site, placed on its first / last / a random mutation
-        sites = sorted({int(s) for s in mu.site if len(_site_rows(mu, s)) >= 2})
+        sites = sorted(s for s, c in _single_mutation_sites(mu).items() if c >= 2)
         if not sites:
             return None
         rows = _site_rows(mu, sites[pick(rng, len(sites))])
@@ -549,7 +573,7 @@ def op_mut_time(rng, tc, mode=None):
         t = mu.time.copy()
         for j in rows:
             known = (j == one) == (mode == "one-known-rest-unknown")
-            t[j] = tc.nodes.time[mu.node[j]] if known else tskit.UNKNOWN_TIME
+            t[j] = (tc.nodes.time[mu.node[j]] if 0 <= mu.node[j] < tc.nodes.num_rows else 0.0) if known else tskit.UNKNOWN_TIME
         mu.time = t
         return f"mut-time:{mode}"
     k = pick(rng, mu.num_rows)
@@ -632,6 +656,94 @@ def op_edge_rows(rng, tc, mode=None):
     return f"edge-rows:{mode}"
 
 
+def _replace_edge_rows(tc, j, rows, insert_at=None):
+    """Edge row j replaced by `rows` (or removed and `rows` inserted before position insert_at of the remaining rows)."""
+    e = tc.edges
+    old = [e[k] for k in range(e.num_rows)]
+    if insert_at is None:
+        new = old[:j] + rows + old[j + 1:]
+    else:
+        rest = old[:j] + old[j + 1:]
+        new = rest[:insert_at] + rows + rest[insert_at:]
+    c = e.copy()
+    c.clear()
+    for r in new:
+        c.append(r)
+    e.replace_with(c)
+
+
+def op_split_edge(rng, tc, mode=None):
+    """One edge cut in two at its midpoint: 'within a parent, sorted by child then left', 'no duplicates', 'disjoint
+    child intervals' all meet here.  ordered / one-ulp gap = valid; reversed = out of order; same-left = duplicate;
+    overlap by one ulp = contradictory."""
+    e = tc.edges
+    if e.num_rows == 0:
+        return None
+    j = pick(rng, e.num_rows)
+    row = e[j]
+    l, r = row.left, row.right
+    mid = (l + r) / 2
+    if not (np.isfinite(mid) and l < mid < r):
+        return None
+    mode = mode or rng.choice(["ordered", "reversed", "gap-ulp", "overlap-ulp", "same-left"])
+    a, b = row.replace(right=mid), row.replace(left=mid)
+    if mode == "reversed":
+        a, b = b, a
+    elif mode == "gap-ulp":
+        b = row.replace(left=math.nextafter(mid, INF))
+    elif mode == "overlap-ulp":
+        b = row.replace(left=math.nextafter(mid, -INF))
+    elif mode == "same-left":
+        b = row
+    _replace_edge_rows(tc, j, [a, b])
+    return f"split-edge:{mode}"
+
+
+def op_edge_block(rng, tc, mode=None):
+    """The block structure of the edge table: a parent's edges contiguous, children ascending inside a block."""
+    e = tc.edges
+    par, child = e.parent, e.child
+    ne = e.num_rows
+    mode = mode or rng.choice(["noncontiguous", "swap-children", "move-to-front"])
+    if mode == "swap-children":
+        cand = [j for j in range(ne - 1) if par[j] == par[j + 1] and child[j] != child[j + 1]]
+        if not cand:
+            return None
+        j = cand[pick(rng, len(cand))]
+        _swap_rows(tc, "edges", j, j + 1)
+    elif mode == "noncontiguous":
+        # the last edge of a block moved behind the next parent's block
+        cand = [j for j in range(1, ne - 1) if par[j] == par[j - 1] and par[j + 1] != par[j]]
+        if not cand:
+            return None
+        j = cand[pick(rng, len(cand))]
+        k = j + 1
+        while k < ne and par[k] == par[j + 1]:
+            k += 1
+        _replace_edge_rows(tc, j, [e[j]], insert_at=k - 1)
+    else:
+        # the last row moved to the front: out of parent-time order unless all parents are equally old
+        if ne < 2:
+            return None
+        _replace_edge_rows(tc, ne - 1, [e[ne - 1]], insert_at=0)
+    return f"edge-block:{mode}"
+
+
+def op_shrink_edge(rng, tc, mode=None):
+    """An edge made shorter: the rows stay valid, but an index built BEFORE the change may no longer be sorted."""
+    e = tc.edges
+    if e.num_rows == 0:
+        return None
+    j = pick(rng, e.num_rows)
+    l, r = e.left[j], e.right[j]
+    mid = (l + r) / 2
+    if not (np.isfinite(mid) and l < mid < r):
+        return None
+    mode = mode or rng.choice(["left-up", "right-down"])
+    setcol(tc, "edges", "left" if mode == "left-up" else "right", j, mid)
+    return f"shrink-edge:{mode}"
+
+
 def op_seqlen(rng, tc, val=None):
     L = tc.sequence_length
     name = val or rng.choice(["0", "-1", "nan", "-0.0", "L/2", "2L", "inf", "-inf", "denorm", "L-ulp", "maxright", "maxright-ulp"])
@@ -704,7 +816,8 @@ def op_benign(rng, tc, mode=None):
 
 
 SUSPECT_OPS = [op_ref, op_ref, op_float, op_float, op_interval, op_time_order, op_swap_rows, op_swap_rows, op_dup_row,
-               op_overlap_child, op_mut_parent, op_mut_time, op_mut_time, op_seqlen, op_adjacent, op_ind_parent, op_edge_rows]
+               op_overlap_child, op_mut_parent, op_mut_time, op_mut_time, op_seqlen, op_adjacent, op_ind_parent, op_edge_rows, op_split_edge,
+               op_edge_block, op_shrink_edge]
 
 
 def _catalogue():
@@ -720,7 +833,7 @@ def _catalogue():
                 continue
             C.append((f"float:{col[0]}.{col[1]}={v}", col[0], lambda rng, tc, col=col, v=v: op_float(rng, tc, col, v)))
     # the NaN family on mutation times twice more: only here does the payload decide (unknown vs non-finite)
-    for v in ("nan", "nan-neg-unknown", "nan-payload2"):
+    for v in ("nan", "nan-neg-unknown", "nan-payload2", "nan-payload-hi"):
         C.append((f"float:mutations.time={v}", "mutations", lambda rng, tc, v=v: op_float(rng, tc, ("mutations", "time"), v)))
     for table in ("edges", "migrations"):
         for mode in ("left=right", "swap", "right=L", "left=0", "right<left", "right=left+ulp"):
@@ -749,6 +862,15 @@ def _catalogue():
         C.append((f"individual-parent:{mode}", "indparents", lambda rng, tc, mo=mode: op_ind_parent(rng, tc, mo)))
     for mode in ("truncate-1", "truncate-all", "append-root", "append-copy"):
         C.append((f"edge-rows:{mode}", "edges", lambda rng, tc, mo=mode: op_edge_rows(rng, tc, mo)))
+    for mode in ("ordered", "reversed", "gap-ulp", "overlap-ulp", "same-left"):
+        for _ in range(2):
+            C.append((f"split-edge:{mode}", "edges", lambda rng, tc, mo=mode: op_split_edge(rng, tc, mo)))
+    for mode in ("noncontiguous", "swap-children", "move-to-front"):
+        for _ in range(2):
+            C.append((f"edge-block:{mode}", "edges-blocks", lambda rng, tc, mo=mode: op_edge_block(rng, tc, mo)))
+    for mode in ("left-up", "right-down"):
+        for _ in range(3):
+            C.append((f"shrink-edge:{mode}", "edges2", lambda rng, tc, mo=mode: op_shrink_edge(rng, tc, mo)))
     for v in ("0", "-1", "nan", "-0.0", "L/2", "2L", "inf", "-inf", "denorm", "L-ulp", "maxright", "maxright-ulp"):
         C.append((f"sequence_length={v}", None, lambda rng, tc, v=v: op_seqlen(rng, tc, v)))
     for mode in BENIGN:
@@ -848,6 +970,9 @@ def _has(m, need):
         return len(m.edges) > 0
     if need == "edges2":
         return len(m.edges) > 1
+    if need == "edges-blocks":
+        ps = [e[2] for e in m.edges]
+        return len(set(ps)) > 1 and len(ps) > len(set(ps))
     if need in ("sites", "nodes"):
         return len(getattr(m, need)) > 0
     if need == "sites2":
@@ -884,13 +1009,12 @@ def gen_model(rng, need=None):
     """A valid generated model that has the rows `need` names (bounded retries; the last attempt is returned anyway,
     the operator then reports 'not applicable')."""
     m = None
-    for _ in range(4):
+    for _ in range(6):
         m = gen.gen_full(rng, max_nodes=9, max_bp=4, max_sites=5, pops=True, migrations=True)
-        if need in ("edges", "edges2") or need is None or not m.edges:
-            if _has(m, need) and (need is None or m.edges or need in ("nodes", "individuals", "populations", "indparents")):
+        if need in ("edges", "edges2", "edges-blocks"):
+            if _has(m, need):
                 return m
-            if need in ("edges", "edges2"):
-                continue
+            continue
         for _ in range(8):
             if _has(m, need):
                 return m
@@ -947,7 +1071,7 @@ def reorder_model(rng, m, mode):
             fr = forest(m, s[0])
             rows = [m.mutations[k] for k in m.site_mutations(j)]
             rng.shuffle(rows)
-            rows.sort(key=lambda x: (-(x[4]) if x[4] is not None else 0.0, fr.depth(x[1]) * -1 + 0 if False else -fr.depth(x[1]) * -1))
+            rows.sort(key=lambda x: (-x[4] if x[4] is not None else 0.0, fr.depth(x[1])))
             muts.extend(rows)
         m.mutations = muts
         par = mutation_parents(m)
@@ -1048,7 +1172,8 @@ def large_model(rng, kind):
 
 # ----------------------------------------------------------------------------- gate entry points
 
-LIB_ERRORS = (tskit.LibraryError, ValueError, OverflowError)
+# tskit.FileFormatError: the library's own error class for files it cannot read (only reachable through the file entry points)
+LIB_ERRORS = (tskit.LibraryError, tskit.FileFormatError, ValueError, OverflowError)
 
 
 def rows_snapshot(tc):
@@ -1063,9 +1188,9 @@ def index_of(tc):
 
 def canonical_index(tc):
     """What build_index() makes for these rows (only used to tell a user index with another tie-break apart)."""
-    c = tc.copy()
-    c.drop_index()
     try:
+        c = tc.copy()
+        c.drop_index()
         c.build_index()
     except LIB_ERRORS:
         return None
@@ -1153,8 +1278,9 @@ def run_case(case, ctx):
         m = gen_model(rng, need)
         tc = to_tables(m)
         index_mode = ["built", "built", "absent", "stale", "built", "stale"][(i // 3) % 6]
-        if label.startswith("edge-rows"):
-            index_mode = "stale"   # the point of these: an index of the wrong length must not count as an index
+        if label.startswith(("edge-rows", "shrink-edge")):
+            index_mode = "stale"   # the point of these: an index of the wrong length must not count as an index; an
+            #                        index that is no longer sorted for the new (valid) rows must be refused
         if index_mode == "stale":
             tc.build_index()
             prebuilt = True
@@ -1230,6 +1356,11 @@ def run_case(case, ctx):
     # ------------------------------------------------------------ verdicts from the rows actually present
     user_index = index_of(tc)
     back = from_tables(tc)
+    if user_index is not None and (len(user_index[0]) != len(back.edges) or len(user_index[1]) != len(back.edges)):
+        # has_index() is what tree_sequence() asks before deciding to build: an index made for another number of
+        # edges is not an index of these edges (reject_reasons() says 'index.length' and the gate must refuse it)
+        ctx.violation("gate/has-index-wrong-length", f"has_index() is True with {len(user_index[0])}/{len(user_index[1])} index entries "
+                      f"for {len(back.edges)} edges (ops={labels}, index={index_mode})", None)
     canonical = canonical_index(tc) if user_index is not None else None
 
     def judge(index):
@@ -1291,6 +1422,13 @@ def run_case(case, ctx):
                 t.num_edges
             if how == "tree_sequence":
                 ctx.count("accepted-usable")
+                if case["k"] % 4 == 1:
+                    # the tables of a tree sequence that exists are valid by definition: they must pass the gate again
+                    ctx.count("roundtrip-checks")
+                    try:
+                        ts.dump_tables().tree_sequence()
+                    except LIB_ERRORS as e2:
+                        ctx.violation("gate/roundtrip-rejected", f"tree_sequence() accepted, but the accepted tree sequence's own tables are rejected ({e2}): {desc}", detail)
         for o, b in ((tc, before), (obj, obj_before)):
             if o is None:
                 continue
